@@ -190,3 +190,103 @@ def search_collapse():
             if keys != want:
                 return case, "keys of the layer are not the announced block grid"
     return None
+
+
+# ---------------------------------------------------------------------------------------------
+# _extract_unknown_groups(reduced, dtype): the lazy array of the labels found at compute time
+# ---------------------------------------------------------------------------------------------
+
+
+def extract_unknown_groups_contract(ndim):
+    """the labels found at compute time are read from the FIRST block of the reduced result (every block of the last tree level
+    carries all labels of its cohort / of the whole array): one task, key (name, 0), reading (reduced.name, 0, ..., 0)["groups"];
+    one chunk of unknown size; the announced dtype is the labels' dtype; the layer is named after its input, which is declared a
+    dependency"""
+    box = {}
+
+    def params(ex):
+        chunks = tuple(sym_seq(f"chunks{d}", kind="tuple") for d in range(ndim))
+        reduced = Record("DaskArray", name=z3.String("reduced_name"), chunks=chunks, numblocks=tuple(c.length for c in chunks), dtype=Opaque("dtype"), ndim=ndim)
+        dtype = Record("dtype", token="labels-dtype")
+        box.update(reduced=reduced, dtype=dtype)
+        return {"reduced": reduced, "dtype": dtype}
+
+    def requires(ex, env):
+        return [n >= 1 for n in env["reduced"].fields["numblocks"]]
+
+    def ensures(ex, env, res):
+        r = box["reduced"]
+        ok = isinstance(res, tuple) and len(res) == 1 and isinstance(res[0], Record) and res[0].kind == "DaskArray"
+        if not ok:
+            return [("returns_one_lazy_array", z3.BoolVal(False))]
+        g = res[0]
+        graph = g.fields["graph"]
+        layer = graph.fields["layer"] if isinstance(graph, Record) else None
+        name = g.fields["name"]
+        cl = [("named_after_its_input", name == z3.Concat(z3.StringVal("group-"), r.fields["name"])),
+              ("input_declared_as_dependency", z3.BoolVal(isinstance(graph, Record) and any(d is r for d in graph.fields["dependencies"]))),
+              ("one_chunk_of_unknown_size", z3.BoolVal(len(g.fields["chunks"]) == 1 and len(g.fields["chunks"][0]) == 1 and str(g.fields["chunks"][0][0]) == "NaN")),
+              ("announces_the_labels_dtype", z3.BoolVal(isinstance(g.fields.get("meta"), Record) and g.fields["meta"].fields.get("dtype") is box["dtype"])),
+              ("exactly_one_task", z3.BoolVal(isinstance(layer, dict) and len(layer) == 1))]
+        if isinstance(layer, dict) and len(layer) == 1:
+            (key, task), = layer.items()
+            cl.append(("task_key_is_the_only_block_of_the_result", z3.BoolVal(isinstance(key, tuple) and len(key) == 2 and key[1] == 0) if not (isinstance(key, tuple) and len(key) == 2) else z3.And(key[0] == name, z3.BoolVal(key[1] == 0))))
+            good = isinstance(task, tuple) and len(task) == 3 and isinstance(task[1], tuple) and len(task[1]) == ndim + 1 and task[2] == "groups" and getattr(task[0], "path", "") == "operator.getitem"
+            cl.append(("task_reads_groups_of_the_first_block_of_the_input", z3.BoolVal(False) if not good else z3.And(task[1][0] == r.fields["name"], z3.BoolVal(all(c == 0 for c in task[1][1:])))))
+        return cl
+
+    c = Contract(qualname="_extract_unknown_groups", file="flox/core.py", prefix=f"C12.extract_unknown_groups.nd{ndim}", params=params, requires=requires, ensures=ensures, serves=("C12", "C11"),
+                 assumed=("dask.array.Array and HighLevelGraph.from_collections are constructors", "every block of the reduced result carries the labels under the key 'groups' (contract of the aggregate step: C12.find_unique_groups / C05 reindex)"))
+    return c
+
+
+def register_models_groups(prims):
+    register_models(prims)
+
+    def m_dask_array2(ex, st, a, k, node):
+        r = m_dask_array(ex, st, a, k, node)
+        r.fields["meta"] = k.get("meta")
+        return r
+
+    o_array = prims.models["numpy.array"]
+
+    def m_np_array(ex, st, a, k, node):
+        if "dtype" in k and isinstance(a[0], list) and len(a[0]) == 0:
+            return Record("ndarray-meta", dtype=k["dtype"], size=0)
+        return o_array(ex, st, a, k, node)
+
+    prims.register("dask.array.Array", m_dask_array2)
+    prims.register("numpy.array", m_np_array)
+
+
+def all_extract_unknown_groups():
+    out = [extract_unknown_groups_contract(nd) for nd in (1, 2, 3)]
+    for c in out:
+        c.search = search_extract_unknown_groups
+    return out
+
+
+def search_extract_unknown_groups():
+    """bounded search on the real function: reduced results of rank 1-3, several label dtypes"""
+    import operator
+
+    import dask.array as da
+    import numpy as np
+
+    from flox.core import _extract_unknown_groups
+
+    for nd in (1, 2, 3):
+        for dt in ("int64", "float32", "datetime64[ns]"):
+            x = da.zeros((4,) * nd, chunks=2)
+            case = dict(ndim=nd, dtype=dt)
+            try:
+                (g,) = _extract_unknown_groups(x, np.dtype(dt))
+            except Exception as e:
+                return case, f"raised {type(e).__name__}: {e}"
+            layer = dict(g.__dask_graph__().layers[g.name])
+            want = {(g.name, 0): (operator.getitem, (x.name,) + (0,) * nd, "groups")}
+            if layer != want:
+                return case, f"layer {layer} != {want}"
+            if g.dtype != np.dtype(dt) or g.ndim != 1 or g.numblocks != (1,) or g.name != f"group-{x.name}":
+                return case, f"announced dtype {g.dtype}, rank {g.ndim}, blocks {g.numblocks}, name {g.name}"
+    return None
